@@ -93,7 +93,7 @@ def harness_job(tier, h):
            "unwind": t.get("unwind", 64), "alloc_limit": t.get("alloc_limit", 0), "preempt": t.get("preempt", 0),
            "pool_adversarial": bool(t.get("pool_adversarial")), "budget_s": t.get("budget_s", 0), "max_paths": t.get("max_paths", 0),
            "traces": t.get("traces", 40 if tier == "quick" else 200), "trace_every": t.get("trace_every", 1),
-           "timeout_ms": t.get("timeout_ms", 20000 if tier == "quick" else 120000), "no_summaries": bool(t.get("no_summaries"))}
+           "timeout_ms": t.get("timeout_ms", 20000 if tier == "quick" else 120000), "no_summaries": bool(t.get("no_summaries")), "race": bool(t.get("race"))}
     return job, t
 
 
